@@ -35,10 +35,10 @@ import (
 // ---------------------------------------------------------------- pointer scan
 
 type aliasHit struct {
-	path  string // full path from the root
-	owner string // innermost Type.field: the class key
-	off   int    // offset of the overlap inside the target range
-	n     int
+	path    string // full path from the root
+	owner   string // innermost Type.field: the class key
+	off     int    // offset of the overlap inside the target range
+	n       int
 	capOnly bool // only the capacity beyond len overlaps
 }
 
@@ -132,6 +132,7 @@ func (s *ptrScanner) walk(v reflect.Value, path, owner string, depth int) {
 		e := v.Elem()
 		if e.Kind() != reflect.Struct {
 			owner = typeName(e.Type())
+			s.types[owner] = true
 		}
 		s.walk(e, path+"(*"+typeName(e.Type())+")", owner, depth+1)
 	case reflect.Interface:
@@ -790,6 +791,7 @@ func (c *c08run) reuse4(a, b []byte) {
 	if part, d := sb.diff(snap4(pb)); part != "" {
 		c.fail(line, "changed-after-reuse:"+part, "packet B's "+part+" changed after the buffer was reused: "+d)
 	}
+	c.reportHits(line, "aliases-input", scanGraph(pb, sbuf).hits)
 	runtime.KeepAlive(sbuf)
 }
 
@@ -867,7 +869,11 @@ func oracleC08(r *Rng, n int, thorough bool, seeds []string) *OracleResult {
 		safely(func() {
 			switch rr.Intn(14) {
 			case 0, 1, 2, 3:
-				c.v6(genMsg6(rr, rr.Range(0, 3), rr.Chance(1, 4)).ToBytes(), "encoded")
+				depth := rr.Range(0, 3)
+				if thorough && rr.Chance(1, 8) {
+					depth = rr.Range(4, 12)
+				}
+				c.v6(genMsg6(rr, depth, rr.Chance(1, 4)).ToBytes(), "encoded")
 			case 4:
 				b, kind := genWire6(rr)
 				c.v6(b, kind)
